@@ -7,6 +7,7 @@ import (
 	"go/ast"
 	"go/parser"
 	"go/token"
+	"math/rand"
 	"os"
 	"os/exec"
 	"path/filepath"
@@ -228,9 +229,144 @@ func tagBackMany(bases []string, runs int) map[string][][]string {
 	return all
 }
 
-func genTags(s *sink, repo string) {
+// runTagList: a hand-written ScriptList with one or two scripts, possibly using the freedoms of the
+// format (shared Script table, shared LangSys tables, tables not in record order), through gtab.Read,
+// (*gtab.Info).Encode (walked) and gtab.Read again.
+func runTagList(out *vio.Out, c Case) {
+	var specs []namex.ScriptSpec
+	in := []ev{}
+	maxF := 0
+	for _, sc := range c.Scripts {
+		spec := namex.ScriptSpec{Script: sc.Script}
+		for _, l := range sc.Langs {
+			spec.Langs = append(spec.Langs, namex.LangSpec{Lang: l.Lang, Required: l.Req, Features: l.Feat})
+			in = append(in, ev{"script": ints([]byte(sc.Script)), "lang": ints([]byte(l.Lang)), "req": l.Req, "feat": l.Feat})
+			for _, f := range append([]int{l.Req}, l.Feat...) {
+				if f != 0xFFFF && f > maxF {
+					maxF = f
+				}
+			}
+		}
+		specs = append(specs, spec)
+	}
+	tbl := namex.BuildLayoutX(specs, maxF+1, namex.LayoutOpts{ShareScript: c.Layout == "sharescript",
+		ShareLangSys: c.Layout == "sharelangsys", Reverse: c.Layout == "reversed"})
+	walked := func(data []byte) ([]ev, bool) {
+		ws, err := namex.WalkScriptList(data)
+		if err != nil {
+			return []ev{}, false
+		}
+		o := []ev{}
+		for _, l := range ws {
+			o = append(o, ev{"script": ints(l.Script), "lang": ints(l.Lang), "req": l.Required, "feat": l.Features})
+		}
+		return o, true
+	}
+	// self-check of builder and walker (not a verdict): the walker sees the list the builder was given
+	if built, ok := walked(tbl); !ok || len(built) != len(in) {
+		vio.Fatal(fmt.Sprintf("taglist case %d: builder/walker disagree (%d of %d language systems)", c.ID, len(built), len(in)))
+	}
+	e := ev{"ev": "taglist", "case": c.ID, "layout": c.Layout, "in": in,
+		"panic": false, "readfail": false, "walkfail": false, "read2fail": false,
+		"map1": []ev{}, "out": []ev{}, "map2": []ev{}}
+	project := func(info *gtab.Info) []ev {
+		res := []ev{}
+		for t, f := range info.ScriptList {
+			feat := []int{}
+			for _, x := range f.Optional {
+				feat = append(feat, int(x))
+			}
+			res = append(res, ev{"tag": t.String(), "req": int(f.Required), "feat": feat})
+		}
+		sort.Slice(res, func(i, j int) bool { return res[i]["tag"].(string) < res[j]["tag"].(string) })
+		return res
+	}
+	func() {
+		defer func() {
+			if recover() != nil {
+				e["panic"] = true
+			}
+		}()
+		info, err := gtab.Read(bytes.NewReader(tbl), tp(c.Gpos))
+		if err != nil || info == nil {
+			e["readfail"] = true
+			return
+		}
+		e["map1"] = project(info)
+		data := info.Encode()
+		o, ok := walked(data)
+		if !ok {
+			e["walkfail"] = true
+			return
+		}
+		e["out"] = o
+		info2, err := gtab.Read(bytes.NewReader(data), tp(c.Gpos))
+		if err != nil || info2 == nil {
+			e["read2fail"] = true
+			return
+		}
+		e["map2"] = project(info2)
+	}()
+	out.Emit(e)
+}
+
+// concretiseScripts makes an abstract ScriptList concrete: script tags are taken round robin from
+// the tree's table, so the sweep visits every script; languages are drawn from the table.
+func concretiseScripts(a AbsCase, k int, scripts, langs []string, rng *rand.Rand) Case {
+	c := Case{Kind: "taglist", Layout: a.Mode, Gpos: k%2 == 1}
+	used := map[string]bool{}
+	for i, sh := range a.Scripts {
+		sc := scripts[(2*k+i)%len(scripts)]
+		for used[sc] {
+			sc = scripts[rng.Intn(len(scripts))]
+		}
+		used[sc] = true
+		one := ScriptCase{Script: sc}
+		fno := 0
+		ls := func(lang, kind string) LangCase {
+			if kind == "empty" {
+				return LangCase{Lang: lang, Req: 0xFFFF, Feat: []int{}}
+			}
+			fno++
+			if a.Mode == "sharelangsys" {
+				// equal content, so that the tables can be shared
+				return LangCase{Lang: lang, Req: 1, Feat: []int{0, 2}}
+			}
+			return LangCase{Lang: lang, Req: []int{0xFFFF, fno, 0}[rng.Intn(3)], Feat: []int{fno, fno + 3}}
+		}
+		if a.Mode == "sharescript" && i > 0 {
+			// the second tag shares the Script table of the first: same language systems
+			one.Langs = append([]LangCase{}, c.Scripts[0].Langs...)
+			c.Scripts = append(c.Scripts, one)
+			continue
+		}
+		if sh.Def != "none" {
+			one.Langs = append(one.Langs, ls("", sh.Def))
+		}
+		seen := map[string]bool{}
+		for _, kind := range sh.Langs {
+			l := langs[rng.Intn(len(langs))]
+			for seen[l] {
+				l = langs[rng.Intn(len(langs))]
+			}
+			seen[l] = true
+			one.Langs = append(one.Langs, ls(l, kind))
+		}
+		c.Scripts = append(c.Scripts, one)
+	}
+	return c
+}
+
+func genTags(s *sink, repo, tlcCases string) {
 	scripts, langs := tagTables(repo)
 	rng := vio.Rand(11)
+	k := 0
+	for _, a := range vio.ReadLines[AbsCase](tlcCases) {
+		if a.Part == "scripts" {
+			s.add(concretiseScripts(a, k, scripts, langs, vio.Rand(int64(7000+k))), repo)
+			k++
+		}
+	}
 	// (1) every script with its default language system and every language of the table, each
 	// language system with its own required feature and feature list
 	for si, sc := range scripts {
